@@ -24,7 +24,7 @@ def optNats : Option (List Nat) → String
 
 def parseFrame (s : String) : Option Frame :=
   match s.splitOn ":" with
-  | [ty, len, v] =>
+  | ty :: len :: v :: _ =>     -- (a fourth part, the hash of the entry written, is for the harness)
     match ty.toNat?, len.toNat?, v.toNat? with
     | some ty, some len, some v => some ⟨ty, (if v = 1 then 0 else 255) :: List.replicate (len - 1) 0⟩
     | _, _, _ => none
